@@ -16,6 +16,7 @@ type c18Case struct {
 	Byte  int    `json:"byte,omitempty"`
 	Seq   string `json:"seq,omitempty"`
 	Query string `json:"query,omitempty"`
+	Len   int    `json:"len,omitempty"` // long: a generated sequence of this many letters (seed Byte)
 }
 
 // IUPAC base sets as bit masks A=1 C=2 G=4 T=8, written from the IUPAC definition.
@@ -81,8 +82,70 @@ func refMatchByte(q, s byte) bool {
 	return ss&^qs == 0
 }
 
+// c18Long: a sequence of c.Len letters (all IUPAC letters, both cases, a few other bytes, pseudo-random from c.Byte):
+// Complement and Transcribe agree with the per-byte reference at every position, the double complement is the
+// identity up to U->T, and a pattern planted across the last residues is found by Search.
+func c18Long(c c18Case) *Violation {
+	alpha := []byte(iupacLower + "ACGTURYKMSWBDHVN" + "-*x5")
+	in := make([]byte, c.Len)
+	x := uint64(c.Byte)*2654435761 + 17
+	for i := range in {
+		x = splitmix(x)
+		in[i] = alpha[x%uint64(len(alpha))]
+	}
+	plant := []byte("gattacagattaca")
+	if c.Len >= len(plant) {
+		copy(in[c.Len-len(plant):], plant)
+	}
+	var comp, tr, cc []byte
+	var hits []gts.Segment
+	if pi := guard(func() {
+		comp = gts.Complement(gts.New(nil, nil, append([]byte(nil), in...))).Bytes()
+		tr = gts.Transcribe(gts.New(nil, nil, append([]byte(nil), in...))).Bytes()
+		cc = gts.Complement(gts.New(nil, nil, append([]byte(nil), comp...))).Bytes()
+		hits = gts.Search(gts.New(nil, nil, append([]byte(nil), in...)), gts.New(nil, nil, plant))
+	}); pi != nil {
+		return panicViolation(fmt.Sprintf("Complement/Transcribe/Search of %d letters", c.Len), pi)
+	}
+	if len(comp) != c.Len || len(tr) != c.Len || len(cc) != c.Len {
+		return viol("length", "%d letters: lengths %d, %d, %d", c.Len, len(comp), len(tr), len(cc))
+	}
+	for i, b := range in {
+		if want := refComplement(b, false); comp[i] != want {
+			return viol("complement-table", "%d letters: Complement()[%d] = %q for %q, want %q", c.Len, i, comp[i], b, want)
+		}
+		if want := refComplement(b, true); tr[i] != want {
+			return viol("transcribe-table", "%d letters: Transcribe()[%d] = %q for %q, want %q", c.Len, i, tr[i], b, want)
+		}
+		back := b
+		switch b {
+		case 'U':
+			back = 'T'
+		case 'u':
+			back = 't'
+		}
+		if cc[i] != back {
+			return viol("involution", "%d letters: Complement(Complement())[%d] = %q for %q", c.Len, i, cc[i], b)
+		}
+	}
+	if c.Len >= len(plant) {
+		found := false
+		for _, h := range hits {
+			if h.Head() == c.Len-len(plant) && h.Tail() == c.Len {
+				found = true
+			}
+		}
+		if !found {
+			return viol("search", "%d letters: the pattern planted on the last %d residues is not among the %d hits", c.Len, len(plant), len(hits))
+		}
+	}
+	return nil
+}
+
 func c18Check(c c18Case) *Violation {
 	switch c.Mode {
+	case "long":
+		return c18Long(c)
 	case "byte":
 		b := byte(c.Byte)
 		in := []byte{'x', b, b, 'A'}
@@ -182,6 +245,8 @@ func c18Check(c c18Case) *Violation {
 func c18Classify(c c18Case) (bool, []string) {
 	labels := []string{"mode:" + c.Mode}
 	switch c.Mode {
+	case "long":
+		return c.Len > 0, append(labels, fmt.Sprintf("len>=2^%d", bitLen(c.Len)))
 	case "byte":
 		_, ok := iupacSets[lowerByte(byte(c.Byte))]
 		if ok {
@@ -277,6 +342,14 @@ func TestC18(t *testing.T) {
 		}
 	}
 	e.done(true)
+	// magnitudes: lengths around powers of two up to 2^18 (thorough 2^21) and around multiples of 65536
+	em := enumPart(t, c18Prop, st, "long-sequences")
+	for _, n := range magnitudeLens(thorough()) {
+		if !em.try(c18Case{Mode: "long", Len: n, Byte: n % 251}) {
+			return
+		}
+	}
+	em.done(true)
 	// every query letter x sequence letter of the IUPAC alphabet, both cases (query 'n' only against letters)
 	e2 := enumPart(t, c18Prop, st, "all-letter-pairs")
 	letters := []byte(iupacLower + "ACGTURYKMSWBDHVN")
